@@ -46,6 +46,7 @@ var fixedReplays = map[string]struct{ tmpl, pkg, run string }{
 	"shouldUseTrimmedBolt$2/pre/Cursor#0/0": {"C13_db_without_bucket_test.go.tmpl", "internal/chain/boltdb", "TestVerifReplayC13DBWithoutBucket"},
 	"(*BeaconProcess).StartFollowChain/pre/go StartFollowChain$2#0/the-attempt-result-channel-exists": {"C10_follow_retry_test.go.tmpl", "internal/core", "TestVerifReplayC10FollowRetriesAfterFailedAttempt"},
 	"(*memDBCursor).Seek/post/mem-seek-reports-nothing-stored-only-when-nothing-is-stored-at-or-after-the-round": {"C11_memdb_seek_absent_round_test.go.tmpl", "internal/chain/beacon", "TestVerifReplayC11MemDBSeekAbsentRound"},
+	"(*memDBCursor).Next/post/mem-cursor-next-is-the-successor-of-the-round-it-stood-on": {"C11_memdb_cursor_trim_test.go.tmpl", "internal/chain/beacon", "TestVerifReplayC11MemDBCursorTrim"},
 	"(*DrandHandler).ChainHashes/guarded/beacons-read": {"C14_http_chain_table_race_test.go.tmpl", "handler/http", "race:TestVerifReplayC14HTTPChainTableRace"},
 	"(*DrandDaemon).Packet/guarded/beaconProcesses-read":       {"C14_daemon_table_race_test.go.tmpl", "internal/core", "race:TestVerifReplayC14DaemonTableRace"},
 	"(*DrandDaemon).BroadcastDKG/guarded/beaconProcesses-read": {"C14_daemon_table_race_test.go.tmpl", "internal/core", "race:TestVerifReplayC14DaemonTableRace"},
